@@ -116,6 +116,24 @@ where
             *handle = handle.reindex(gaps);
         }
     }
+
+    /// Registers a public identifier for an item that only learns its identifier after it was
+    /// inserted. The identifier the item had before (if any) stops resolving.
+    /// Returns false (and changes nothing) if the identifier is already taken by another item.
+    pub(crate) fn rebind(&mut self, old_id: Option<&str>, id: &str, handle: HandleType) -> bool {
+        if let Some(existing) = self.data.get(id) {
+            if *existing != handle {
+                return false;
+            }
+        }
+        if let Some(old_id) = old_id {
+            if self.data.get(old_id) == Some(&handle) {
+                self.data.remove(old_id);
+            }
+        }
+        self.data.insert(id.to_string(), handle);
+        true
+    }
 }
 
 /// This models relations or 'edges' in graph terminology, between handles. It acts as a reverse index is used for various purposes.
